@@ -364,3 +364,5 @@ def run(tier, seed):
 
 
 RULE += (' The gradient evaluator as the GradientDescent algorithm drives it: five step rules x min/max x n in {1,2,3} x 1 and 3 iterations x two starts.')
+
+RULE += (' Beyond small: worst-case batches of 25x100, 40x51, 20x(100,100), 33x65, 64x33, 2x1000 (parameters x designs); gradients with 33, 65, 129 parameters and batches of 100 and 513.')
